@@ -76,3 +76,21 @@ prop("C13",
      rule="mutation documents from the C01 generator (2-6 top-level fields through aliases, duplicates, fragments, inline fragments, nested selections); outcomes at ~40% of reachable positions from {nil, error, value+error, panic, thunk, failing thunk, nil thunk} (failures only in nullable positions). Non-trivial = >= 2 top-level fields and at least one thunk forced; distinct by hash of the case.",
      assumptions=EXEC_ASSUME,
      runs=[dict(test="^TestC13$", quick=dict(checks=1500), thorough=dict(checks=15000, shards=16, timeout=3000))])
+
+SYN_ASSUME = [
+    "the grammar is the one the parser documents in its own production comments (June-2018 with the differences listed in DESIGN.md §3.1); the reference lexer/parser (harness/syn/reflex.go) is written from it and does not import the library",
+    "offsets are byte offsets into Source.Body",
+]
+
+prop("C03",
+     level_text="differential testing against an independent reference lexer+parser: bounded exhaustive enumeration of token strings (complete up to a length, sharded beyond), grammar-derived sentences under hostile layouts, token/byte mutations, and (thorough) a coverage-guided native fuzz campaign; oracle = accept/reject agreement, AST equality incl. decoded values and byte spans, source immutability",
+     note="two recorded known findings (malformed type references, rune offsets after multi-byte ignored characters) are absorbed only by their narrow classifiers while their reproducers still fail",
+     technique="bounded exhaustive enumeration + property-based testing (rapid) + go test -fuzz, differential oracle (reference parser)",
+     rule="(a) every token string of length <= 3 over a 31-token alphabet (all punctuators, four literal forms, 13 names/keywords), a seed-selected 1/8 slice of length 4 in quick and all of length 4 plus all of length 5 (16 shards) in thorough; all [ ] ! a sequences <= 6 in two type-reference positions; 9 type-system prefixes x all continuations <= 4 over 12 tokens. (b) rapid: sentences derived from the grammar (executable, type-system, mixed, values) with hostile strings, block strings, numbers, layouts (commas, CR/LF/CRLF, comments, BOM, non-ASCII comments, touching tokens). (c) one token mutation (insert/delete/replace/swap/duplicate) and optionally one byte mutation. Non-trivial = not rejected by both sides within the first two tokens (enumeration) / contains a string, comment, type reference or is a rejected mutation (generated); distinct by input text.",
+     assumptions=SYN_ASSUME,
+     runs=[
+         dict(test="^TestC03_(Enum|Corpus)$", quick=dict(env=dict(VERIF_C03_FULL=3, VERIF_C03_SLICE=4, VERIF_C03_PARTS=8)),
+              thorough=dict(env=dict(VERIF_C03_FULL=4, VERIF_C03_SLICE=5, VERIF_C03_PARTS=1), shards=16, timeout=3000)),
+         dict(test="^TestC03_Gen$", quick=dict(checks=8000), thorough=dict(checks=60000, shards=16, timeout=3000)),
+         dict(test="^XXX$", thorough_only=True, thorough=dict(fuzz="^FuzzC03$", fuzztime="240s", timeout=900)),
+     ])
